@@ -52,13 +52,15 @@ package golang
 
 //@ func groupDFAStates(dfa *auto.DFA) symboltable.SymbolTable[int, symboltable.SymbolTable[int, []rune]]
 //@   requires dfa != nil
-//@   ensures result != nil
+//@   loop[0] invariant groups != nil && (forall g symboltable.SymbolTable[int, []rune] :: {g in groups.vals} g in groups.vals ==> g != nil)
+//@   ensures result != nil && (forall g symboltable.SymbolTable[int, []rune] :: {g in result.vals} g in result.vals ==> g != nil)
 
 //@ func (g *generator) generateLexer$1(s auto.State) int
 
 //@ func (g *generator) generateLexer() error
-//@   requires genOK(g)
+//@   requires genOK(g) && specWF(g.Params.Spec)
 //@   modifies fsKind, fsData, all(errors.MultiError.n)
+//@   loop[2] invariant data != nil && data.DFA != nil && len(data.DFA.FinalStates) == len(g.Params.Spec.Definitions)
 //@   loop[3] invariant untouched()
 //@   loop[3] invariant errs == nil && __i3 > 0 ==> old(fsKind)[pkgFile(g, "input.go")] == 0 && fsKind[pkgFile(g, "input.go")] == 2
 //@   loop[3] invariant errs == nil && __i3 > 1 ==> old(fsKind)[pkgFile(g, "lexer.go")] == 0 && fsKind[pkgFile(g, "lexer.go")] == 2
@@ -77,7 +79,7 @@ package golang
 //@   ensures @conflict lalrConflict(g.Params.Spec.Grammar, g.Params.Spec.Precedences) ==> result != nil && fsKind == old(fsKind) && fsData == old(fsData)
 
 //@ func Generate(u ui.UI, params *Params) error
-//@   requires u != nil && params != nil && params.Spec != nil
+//@   requires u != nil && params != nil && params.Spec != nil && specWF(params.Spec)
 //@   modifies fsKind, fsData, params.Path, all(errors.MultiError.n)
 //@   ensures @untouched untouched()
 //@   ensures @badname !isIDValid(old(params.Spec.Name)) ==> result != nil && fsKind == old(fsKind) && fsData == old(fsData)
